@@ -58,7 +58,37 @@ func (sc *SCtx) traceBuiltin(x SCall) (Val, types.Type, bool, error) {
 	return Val{}, nil, false, nil
 }
 
-func (e *Enc) selectHook(st *State, ins *ssa.Select, idx Term) {}
+// selectHook: a select that contains a receive from ctx.Done() is a cancellation poll (C02):
+// polls++ ; once a poll has fired every later poll fires (cancellation is monotone); fired' = fired || chosen.
+func (e *Enc) selectHook(st *State, ins *ssa.Select, idx Term) {
+	if !e.hasGhost("polls") || !e.hasGhost("fired") {
+		return
+	}
+	for i, s := range ins.States {
+		if s.Dir != types.RecvOnly {
+			continue
+		}
+		call, ok := s.Chan.(*ssa.Call)
+		if !ok || !call.Common().IsInvoke() || call.Common().Method.Name() != "Done" {
+			continue
+		}
+		polls := e.comp(st, "X:polls", SInt)
+		fired := e.comp(st, "X:fired", SBool)
+		e.assume(st.reach, Imp(fired, Eq(idx, I(int64(i)))))
+		st.heaps["X:polls"] = e.def("polls", Add(polls, I(1)))
+		st.heaps["X:fired"] = e.def("fired", Or(fired, Eq(idx, I(int64(i)))))
+		return
+	}
+}
+
+func (e *Enc) hasGhost(name string) bool {
+	for _, g := range e.P.Spec.Ghosts {
+		if g.Name == name {
+			return true
+		}
+	}
+	return false
+}
 
 // ---------------------------------------------------------------------------
 // Lock discipline (C13)
